@@ -109,6 +109,7 @@ type Run struct {
 	Extra     map[string]any
 	ShardSize int
 	Evals     int // evaluations that are not correspondence cases (oracle-only)
+	DistinctExtra int // distinct non-trivial evaluations counted by a child process (distinct by construction)
 }
 
 func NewRun(id, tier string, seed uint64, out string) *Run {
@@ -141,6 +142,15 @@ func (r *Run) AddCase(term string, replay any, nontrivial bool, canon string) {
 	r.cases = append(r.cases, term)
 	r.replays = append(r.replays, replay)
 	r.Count(nontrivial, canon)
+	if len(r.Samples) < 3 {
+		r.Samples = append(r.Samples, replay)
+	}
+}
+
+// AddCaseOnly registers a correspondence case whose evaluations were already counted (child processes).
+func (r *Run) AddCaseOnly(term string, replay any) {
+	r.cases = append(r.cases, term)
+	r.replays = append(r.replays, replay)
 	if len(r.Samples) < 3 {
 		r.Samples = append(r.Samples, replay)
 	}
@@ -207,7 +217,7 @@ func (r *Run) Finish() {
 	sort.Strings(keys)
 	sum := map[string]any{
 		"property": r.ID, "tier": r.Tier, "seed": r.Seed,
-		"evaluations": r.Evals, "distinct_nontrivial": len(r.distinct),
+		"evaluations": r.Evals, "distinct_nontrivial": len(r.distinct) + r.DistinctExtra,
 		"cases": len(r.cases), "shards": shards, "shard_size": r.ShardSize,
 		"rule": r.Rule, "distribution": r.Dist, "samples": r.Samples,
 		"exhaustive": r.Exhaust, "failures": r.Failures, "extra": r.Extra,
